@@ -259,3 +259,110 @@ def native_checks(rng, tier):
     yield dict(function="match <group> via run_to_completion", evaluations=n2, distinct=len(seen2), failures=len(fails2), failing=fails2,
                bound="and/or formulas (depth <= 2, <= 4 leaves) over {A,B,C,D} and {E(x=1),E(x=2),A,B}; event sequences of length %d over the "
                      "formula's events plus an irrelevant X (sampled: 40 per formula in quick tier, exhaustive in thorough)" % (4 if tier == "thorough" else 3))
+
+
+# =============================================================================================================================
+# (3) `await` / `when` on groups of FLOWS: the formula over the flows' Finished events, with members that fail and with idle time
+# =============================================================================================================================
+_native_checks_events = native_checks
+
+
+def _flow_group_checks(rng, tier):
+    import itertools
+    import datetime as dtm
+    from native import v2
+    from nemoguardrails.colang.v2_x.runtime import flows as fl
+    from nemoguardrails.colang.v2_x.runtime import statemachine as sm
+    SM_FILE = "nemoguardrails/colang/v2_x/runtime/statemachine.py"
+    fails = []
+    n = 0
+    seen = set()
+    members = ["fa", "fb", "fc"]
+    member_src = "".join("flow %s\n  when E%s()\n    return\n  or when K%s()\n    abort\n\n" % (m, m[1], m[1]) for m in members)
+
+    def colang(f):
+        if f[0] == "leaf":
+            return f[1]
+        return "(" + (" %s " % f[0]).join(colang(c) for c in f[1]) + ")"
+
+    # simulated idle time (the clean-up of long-finished flow instances must not change the outcome)
+    real = dtm.datetime
+    box = dict(offset=dtm.timedelta(0), ticks=0, t0=real.now())
+
+    class IdleClock(real):
+        @classmethod
+        def now(cls, tz=None):
+            box["ticks"] += 1
+            return box["t0"] + box["offset"] + dtm.timedelta(microseconds=box["ticks"])
+
+    saved = (sm.datetime, fl.datetime)
+    sm.datetime = IdleClock
+    fl.datetime = IdleClock
+    try:
+        forms = _formulas(members, 3, 2)
+        if tier != "thorough":
+            forms = [f for i, f in enumerate(forms) if i % 2 == 0]
+        for f in forms:
+            used = sorted({m for m in members if m in _fmt(f)})
+            if len(used) < 2:
+                continue
+            body = colang(f)[1:-1]
+            for form in ("await", "when"):
+                if form == "await":
+                    src = member_src + "flow main\n  match Go()\n  await %s\n  start UtteranceBotAction(script=\"done\")\n  match Never()\n" % body
+                else:
+                    src = member_src + ("flow main\n  match Go()\n  when %s\n    start UtteranceBotAction(script=\"done\")\n  else\n"
+                                        "    start UtteranceBotAction(script=\"else\")\n  match Never()\n" % body)
+                alphabet = ["E" + m[1] for m in used] + ["K" + m[1] for m in used] + ["X"]
+                L = 3 if tier != "thorough" else 4
+                seqs = list(itertools.product(alphabet, repeat=L))
+                if len(seqs) > (24 if tier != "thorough" else 200):
+                    seqs = rng.sample(seqs, 24 if tier != "thorough" else 200)
+                for seq in seqs:
+                    for idle_after in (None, 0) if tier != "thorough" else (None, 0, 1):
+                        n += 1
+                        seen.add((form, _fmt(f), seq, idle_after))
+                        box["offset"] = dtm.timedelta(0)
+                        got = None
+                        try:
+                            st, out = v2.start_main(src)
+                            st, out = v2.step(st, {"type": "Go"})
+                            for i, e in enumerate(seq):
+                                st, out = v2.step(st, {"type": e})
+                                if any(o.get("type") == "StartUtteranceBotAction" and o.get("script") == "done" for o in out):
+                                    got = i
+                                    break
+                                if idle_after == i:
+                                    box["offset"] += dtm.timedelta(seconds=6)
+                        except Exception as ex:
+                            got = "raised %s: %s" % (type(ex).__name__, str(ex)[:80])
+                        finished, dead = set(), set()
+                        want = None
+                        for i, e in enumerate(seq):
+                            m = "f" + e[1] if e != "X" else None
+                            if m and m not in finished and m not in dead:
+                                (finished if e[0] == "E" else dead).add(m)
+                            if _ev(f, finished):
+                                want = i
+                                break
+                        if got != want and len(fails) < 5:
+                            fails.append(dict(kind="post", function="%s <group of flows> (run_to_completion)" % form, file=SM_FILE, property_id="C07",
+                                              clause="`await` / `when` on a group of flows completes at exactly the first moment the set of flows that "
+                                                     "FINISHED satisfies the formula (members that failed never count; idle time between events does "
+                                                     "not matter)",
+                                              inputs="%s %s ; events %s%s" % (form, body, list(seq), "" if idle_after is None else
+                                                                               " ; 6 s idle after event #%d" % idle_after),
+                                              outcome="completed at index %r, expected %r" % (got, want)))
+    finally:
+        sm.datetime, fl.datetime = saved
+    yield dict(function="await / when <group of flows> via run_to_completion", evaluations=n, distinct=len(seen), failures=len(fails), failing=fails,
+               bound="and/or formulas (depth <= 2) over 3 member flows that finish on E<x> and fail on K<x>; `await` and `when .. else`; event "
+                     "sequences of length %d over finish / fail / irrelevant events (sampled), each also with 6 s of simulated idle time after an "
+                     "event" % (3 if tier != "thorough" else 4))
+
+
+def native_checks(rng, tier):
+    for rec in _native_checks_events(rng, tier):
+        yield rec
+    for rec in _flow_group_checks(rng, tier):
+        yield rec
